@@ -368,6 +368,9 @@ def call_builtin(ex, reg, st, f: VBuiltin, args, kwargs, node):
         if name == "re.sub":
             pat = _const_pattern(args[0])
             flags = 0
+            fl = kwargs.get("flags")
+            if fl is not None and not (isinstance(fl, VBuiltin) and fl.name in ("re.U", "re.UNICODE")):
+                raise EngineUnsupported("re.sub flags")
             s = args[2]
             if not isinstance(s, VStr):
                 raise EngineUnsupported("re.sub on non-str (TypeError)")
